@@ -127,7 +127,7 @@ ADDENDA = {
  "C03": " Added: a freshly committed ART1 category is a fixed point of its founding pattern, both halves of the weight (ART1_new.v; true only since /repo 4a12d55, the previous divisor L-1+dim kept as art1_new_before_fix_refuted); the Ellipsoid model follows the repaired major-axis rule (/repo 45d03fa). Oracle: relations the published equations impose on every trained weight (ART1 bottom-up rule, founding pattern is a fixed point, Ellipsoid axis zero exactly for one-point categories, unit otherwise, never changed afterwards); audit probes (QuadraticNeuronART centres, shrink ratios above 1/2).",
  "C17": " Added (axiom-free, Bartmap_fit.v): BARTMAP.fit as a whole - both data sets validated first, the column module fitted alone on the transposed matrix, the row module fitted with the row veto (an oracle: a function of the row number, universally quantified) - ends in a checkerboard: shapes, widths, every cell in exactly one bicluster, membership = labels, with NO hypothesis on the labels (they are what the two fits produce; C05's invariant supplies the ranges). Correspondence: whole fit calls on square grid matrices against the model, the implementation's own veto verdicts as oracle. BARTMAP's row veto over a DualVigilanceART column module (repaired /repo 30c6fc7; the ValueError is filed under the recorded empty-cluster finding only when a cluster really is empty); audit probes (constant rows / columns, pruning TopoART as column module).",
  "C16": " Added (Falcon_ep.v): whole calculate_SARSA calls for episodes of every length >= 1 (one target per kept row, every target a valid reward-channel input, a one-step episode trains on its own reward row or the complement-coded single_sample_reward), the untrained target for every td_alpha (clip(alpha r)), and the greedy action 'minimal on request'. Correspondence for whole calls incl. one-step episodes; default action space.",
- "C15": " Oracle: CVIART fits of 1-3 epochs, every step judged against the labelling before that step, exceptions on valid data are failures (two defects repaired: CVI_match on labellings without an index, iCVI_CH on the caller's array / dtype); add/switch streams as unsigned / boolean / float32 rows and through one re-used buffer.",
+ "C15": " Oracle: CVIART fits of 1-3 epochs, every step judged against the labelling before that step, exceptions on valid data are failures (two defects repaired: CVI_match on labellings without an index, iCVI_CH on the caller's array / dtype); add/switch streams as unsigned / boolean / float32 rows and through one re-used buffer. Added (axiom-free, CVI_gate.v): the CVIART gate as repaired - a permitted assignment strictly improves the index whenever both labellings have one, an assignment that does not is refused, a verdict always exists (no index for < 2 or n distinct labels: permitted); correspondence of every recorded CVI_match call (corr/RunGate.v, scikit-learn's index values as oracle).",
  "C12": " Oracle: SMART / DeepARTMAP over every elementary module class as level model, 2..4 levels (Bayesian: decreasing ladder).",
  "C09": " Oracle: the public map_a2b on vectors and single labels.",
  "C01": " Oracle: the search as SimpleARTMAP drives it (its own reset function) against the specification scan, all eight modules.",
@@ -142,7 +142,7 @@ ADDENDA = {
  "C13": " Added: every base category obeys the base module's upper-vigilance bound after every whole fit call (Fuzzy, Hypersphere, Ellipsoid instances of the generic theorem in Wrap_bound.v); the map invariant after every whole fit / partial_fit call (DualVig_reach.v).",
  "C14": " Added: both winners passed a vigilance at least as large as the configured one under every mode that never lowers it (Topo_bound.v), with the pre-fix search kept as a refuted variant (C14_search_before_fix_refuted); re-labelling at a pruning round (Topo_labels.v).",
  "C18": " Added oracles: a wrong-width matrix at the FIRST call for the modules whose hyper-parameters fix the width (ART2A, BayesianART, GaussianART: three defects repaired), integer-dtype invalid batches. Added (Prep_whole.v): whole first calls - for any rectangular data set with non-constant columns the output lies in the unit cube, passes Fuzzy ART's validation after complement coding (double width) and is restored exactly; later data inside the remembered bounds likewise. Oracle: whole-number matrices stored as int8 / int16 / int32 / uint8 / bool (a defect repaired: normalize computed in the caller's dtype).",
- "C19": " The protocol model now states validate-then-assign (a rejected set_params changes nothing: C19_rejected_call_changes_nothing; the old behaviour is kept as set_params_before_fix_refuted). Oracles: rejected calls leave all params and attributes unchanged, module-valued entries in the set_params(get_params) round trip, doubly nested names. Oracles: a sub-estimator replaced together with one of its parameters, rejected calls that also replace a module (two defects repaired).",
+ "C19": " The protocol model now states validate-then-assign (a rejected set_params changes nothing: C19_rejected_call_changes_nothing; the old behaviour is kept as set_params_before_fix_refuted). Oracles: rejected calls leave all params and attributes unchanged, module-valued entries in the set_params(get_params) round trip, doubly nested names. Oracles: a sub-estimator replaced together with one of its parameters, rejected calls that also replace a module (two defects repaired). Added (axiom-free, Params_nested.v): set_params with sub-estimators - own parameters, module replacement and nested values in one call: an unknown name or an invalid own value changes nothing; a module replaced together with one of its parameters receives the value (either keyword order; before /repo 32a9a46 the value went to the module being replaced: nested_before_fix_refuted). Correspondence on DualVigilanceART and BARTMAP over Fuzzy ART (corr/RunParamsN.v), incl. the recorded partial application when a later nested group is rejected.",
 }
 for _k, _v in ADDENDA.items():
     CHECKS[_k]["text"] += _v
